@@ -40,6 +40,8 @@ POOL = [
     ("a", '"a"'), ("", '""'), (None, "null"), (bytes([1]), "B[1]"), (Vec([1]), "V(1)"), (Vec([1.0]), "V(1.0)"),
     ([1], "[1]"), ([1.0], "[1.0]"), ([Fraction(1)], "[3/3]"), ([[1], Fraction(1)], "[[1], 2/2]"), ([[1.0], 1], "[[1.0], 1]"),
     (NDict([(1, 2)]), "{1: 2}"), (NDict([(1.0, 2)]), "{1.0: 2}"), (NDict([(1, 2.0)]), "{1: 2.0}"),
+    # NaN equals itself as a key also inside vectors and lists
+    (Vec([math.nan, 1]), "V(0.0/0.0, 1)"), (Vec([-math.nan, 1.0]), "V(-(0.0/0.0), 1.0)"), ([math.nan], "[0.0/0.0]"), ([Vec([math.nan])], "[V(0.0/0.0)]"),
     # == on dicts ignores the default value, so these address the same entries as the ones above
     (NDict([(1, 2)], default=0, has_default=True), "{:0, 1: 2}"), ([NDict([(1, 2)])], "[{1: 2}]"),
     ([NDict([(1.0, 2)], default=5, has_default=True)], "[{:5, 1.0: 2}]"),
